@@ -80,6 +80,11 @@ Qed.
 Lemma filter_length_le' {A} (p : A -> bool) l : (length (filter p l) <= length l)%nat.
 Proof. induction l as [|a l IH]; [cbn; lia|]. cbn [filter]. destruct (p a); cbn [length]; lia. Qed.
 
+Lemma filter_filter_len {A} (p q : A -> bool) l : (length (filter p (filter q l)) <= length (filter p l))%nat.
+Proof.
+  induction l as [|a l IH]; [cbn; lia|]. cbn [filter]. destruct (q a); cbn [filter]; destruct (p a); cbn [length]; lia.
+Qed.
+
 Lemma filter_all {A} (p : A -> bool) l : (forall a, In a l -> p a = true) -> filter p l = l.
 Proof.
   induction l as [|a l IH]; intros H; [reflexivity|]. cbn [filter]. rewrite (H a (or_introl eq_refl)), IH; [reflexivity|].
@@ -459,3 +464,259 @@ Qed.
 End MapIdx.
 
 End Groups.
+
+(* ------------------------------------------------------------------ *)
+(* 4. records_of, classify, runs_by_target                             *)
+(* ------------------------------------------------------------------ *)
+
+Lemma zseq_zlen_length {A} (cells : list A) :
+  zseq (zlen cells) = map (fun k => 0 + Z.of_nat k) (seq 0 (length cells)).
+Proof.
+  unfold zseq, zrange, zlen.
+  replace (Z.to_nat (Z.of_nat (length cells) - 1 - 0 + 1)) with (length cells) by lia. reflexivity.
+Qed.
+
+Lemma combine_seq_In : forall (cells : list Z) s k c,
+  In (k, c) (combine (map (fun j => 0 + Z.of_nat j) (seq s (length cells))) cells) ->
+  exists j, (j < length cells)%nat /\ k = Z.of_nat (s + j) /\ nth_error cells j = Some c.
+Proof.
+  induction cells as [|a r IH]; intros s k c H; [destruct H|].
+  cbn [length seq map combine] in H. destruct H as [H|H].
+  - injection H as <- <-. exists 0%nat. cbn [length nth_error]. split; [lia|]. split; [lia|reflexivity].
+  - apply IH in H. destruct H as (j & Hj & Hk & Hn). exists (S j). cbn [length nth_error].
+    split; [lia|]. split; [lia|exact Hn].
+Qed.
+
+Lemma records_In cells f x : In x (records_of cells f) ->
+  0 <= x_tpos x < zlen cells /\ (forall dflt, znth cells (x_tpos x) dflt = x_tgt x) /\ In (x_tgt x) cells.
+Proof.
+  unfold records_of. intros H. apply in_flat_map in H. destruct H as ((k & c) & Hkc & Hx).
+  apply in_map_iff in Hx. destruct Hx as (sc & <- & _). cbn [x_tpos x_tgt fst snd].
+  rewrite zseq_zlen_length in Hkc. apply combine_seq_In in Hkc. destruct Hkc as (j & Hj & -> & Hn).
+  cbn [Nat.add]. unfold zlen. split; [lia|]. split.
+  - intros dflt. rewrite znth_nat by lia. rewrite Nat2Z.id. apply nth_error_nth. exact Hn.
+  - eapply nth_error_In. exact Hn.
+Qed.
+
+Lemma records_flat {B} (h : Z -> Z -> Z -> list B) cells f :
+  flat_map (fun x => h (x_tgt x) (x_src x) (x_code x)) (records_of cells f)
+  = flat_map (fun t => flat_map (fun sc => h t (fst sc) (snd sc)) (f t)) cells.
+Proof.
+  unfold records_of. rewrite fm_fm.
+  transitivity (flat_map (fun t => flat_map (fun sc => h t (fst sc) (snd sc)) (f t))
+                         (map snd (combine (zseq (zlen cells)) cells))).
+  - rewrite fm_map. apply flat_map_ext. intros kc. rewrite fm_map. reflexivity.
+  - rewrite map_snd_combine'; [reflexivity|].
+    rewrite zseq_zlen_length, map_length, seq_length. reflexivity.
+Qed.
+
+Definition recs_of_pairs (f : Z -> list (Z * Z)) (kcs : list (Z * Z)) : list xinter :=
+  flat_map (fun kc => map (fun sc => {| x_tgt := snd kc; x_src := fst sc; x_tpos := fst kc; x_code := snd sc |})
+                          (f (snd kc))) kcs.
+
+Lemma recs_pairs_absent f t : forall kcs, ~ In t (map snd kcs) ->
+  filter (fun x => x_tgt x =? t) (recs_of_pairs f kcs) = [].
+Proof.
+  intros kcs Hn. apply filter_none. intros x Hx. unfold recs_of_pairs in Hx.
+  apply in_flat_map in Hx. destruct Hx as (kc & Hkc & Hx). apply in_map_iff in Hx. destruct Hx as (sc & <- & _).
+  cbn [x_tgt]. destruct (Z.eqb_spec (snd kc) t) as [E|E]; [|reflexivity].
+  exfalso. apply Hn. rewrite <- E. apply in_map. exact Hkc.
+Qed.
+
+Lemma recs_pairs_count f t : forall kcs, NoDup (map snd kcs) ->
+  (length (filter (fun x => (x_tgt x =? t)%Z) (recs_of_pairs f kcs)) <= length (f t))%nat.
+Proof.
+  induction kcs as [|kc r IH]; intros Hnd; [cbn; lia|].
+  cbn [map] in Hnd. apply NoDup_cons_iff in Hnd. destruct Hnd as [Hnin Hnd].
+  unfold recs_of_pairs. cbn [flat_map]. fold (recs_of_pairs f r). rewrite filter_app, app_length.
+  destruct (Z.eq_dec (snd kc) t) as [E|E].
+  - rewrite (recs_pairs_absent f t r) by (rewrite <- E; exact Hnin). cbn [length].
+    pose proof (filter_length_le' (fun x => x_tgt x =? t)
+      (map (fun sc => {| x_tgt := snd kc; x_src := fst sc; x_tpos := fst kc; x_code := snd sc |}) (f (snd kc)))) as Hl.
+    rewrite map_length, E in Hl. rewrite E. lia.
+  - rewrite filter_none.
+    + cbn [length]. specialize (IH Hnd). lia.
+    + intros x Hx. apply in_map_iff in Hx. destruct Hx as (sc & <- & _). cbn [x_tgt]. lia.
+Qed.
+
+Lemma records_count cells f t : NoDup cells ->
+  (length (filter (fun x => (x_tgt x =? t)%Z) (records_of cells f)) <= length (f t))%nat.
+Proof.
+  intros Hnd. apply (recs_pairs_count f t (combine (zseq (zlen cells)) cells)).
+  rewrite map_snd_combine'; [exact Hnd|].
+  rewrite zseq_zlen_length, map_length, seq_length. reflexivity.
+Qed.
+
+Lemma classify_filter first last find recs :
+  classify first last true find recs =
+  (filter (fun r => (first <=? x_src r) && (x_src r <=? last) && match find (x_src r) with Some _ => true | None => false end) recs,
+   filter (fun r => negb ((first <=? x_src r) && (x_src r <=? last))) recs).
+Proof.
+  unfold classify. induction recs as [|r recs IH]; [reflexivity|].
+  cbn [fold_right filter]. rewrite IH. cbn [fst snd negb orb].
+  destruct ((first <=? x_src r) && (x_src r <=? last)); cbn [andb negb]; [|reflexivity].
+  destruct (find (x_src r)); reflexivity.
+Qed.
+
+Definition uniform (run : list xinter) : Prop := forall x y, In x run -> In y run -> x_tgt x = x_tgt y.
+
+Lemma runs_concat : forall l cur, concat (runs_by_target l cur) = rev cur ++ l.
+Proof.
+  induction l as [|x r IH]; intros cur; cbn [runs_by_target].
+  - destruct cur as [|y c]; [reflexivity|]. cbn [concat]. reflexivity.
+  - destruct cur as [|y c].
+    + rewrite IH. reflexivity.
+    + destruct (x_tgt y =? x_tgt x).
+      * rewrite IH. cbn [rev]. rewrite <- app_assoc. reflexivity.
+      * cbn [concat]. rewrite IH. reflexivity.
+Qed.
+
+Lemma uniform_rev cur : uniform cur -> uniform (rev cur).
+Proof. intros H x y Hx Hy. apply H; apply in_rev; assumption. Qed.
+
+Lemma runs_ok : forall l cur, uniform cur -> Forall (fun run => run <> [] /\ uniform run) (runs_by_target l cur).
+Proof.
+  induction l as [|x r IH]; intros cur Hu; cbn [runs_by_target].
+  - destruct cur as [|y c]; [constructor|]. constructor; [|constructor]. split.
+    + cbn [rev]. intros E. apply app_eq_nil in E. destruct E as [_ E]. discriminate.
+    + apply uniform_rev. exact Hu.
+  - destruct cur as [|y c].
+    + apply IH. intros a b [<-|[]] [<-|[]]. reflexivity.
+    + destruct (Z.eqb_spec (x_tgt y) (x_tgt x)) as [E|E].
+      * apply IH. intros a b Ha Hb.
+        assert (Hy : forall z, In z (x :: y :: c) -> x_tgt z = x_tgt y).
+        { intros z [<-|Hz]; [symmetry; exact E|]. apply Hu; [exact Hz|left; reflexivity]. }
+        rewrite (Hy a Ha), (Hy b Hb). reflexivity.
+      * constructor.
+        -- split; [|apply uniform_rev; exact Hu].
+           cbn [rev]. intros E'. apply app_eq_nil in E'. destruct E' as [_ E']. discriminate.
+        -- apply IH. intros a b [<-|[]] [<-|[]]. reflexivity.
+Qed.
+
+Lemma runs_seg v run : In run (runs_by_target v []) -> seg run v.
+Proof.
+  intros H. apply in_split in H. destruct H as (r1 & r2 & E).
+  pose proof (runs_concat v []) as Hc. rewrite E in Hc. rewrite concat_app in Hc. cbn [concat rev app] in Hc.
+  exists (concat r1), (concat r2). symmetry. exact Hc.
+Qed.
+
+Lemma runs_props v run : In run (runs_by_target v []) -> run <> [] /\ uniform run /\ seg run v.
+Proof.
+  intros H. pose proof (runs_ok v [] ltac:(intros x y [])) as Hok. rewrite Forall_forall in Hok.
+  destruct (Hok run H) as (H1 & H2). split; [exact H1|]. split; [exact H2|]. apply runs_seg. exact H.
+Qed.
+
+Lemma runs_flat {B} (h : xinter -> list B) v : flat_map (fun run => flat_map h run) (runs_by_target v []) = flat_map h v.
+Proof. rewrite <- fm_concat. rewrite runs_concat. reflexivity. Qed.
+
+(* ------------------------------------------------------------------ *)
+(* 5. one level, abstractly                                            *)
+(* ------------------------------------------------------------------ *)
+
+Section LevelPerm.
+Variable G : Type.
+Variables (idx : G -> list Z) (gfirst glast gn : G -> Z).
+Variable B : Type.
+Variable f : Z -> list (Z * Z).
+Variable e' : Z -> Z -> Z -> B.
+
+Notation find := (gfind1 G idx gn).
+Definition ev (x : xinter) : B := e' (x_tgt x) (x_src x) (x_code x).
+Definition kk (g : G) (x : xinter) : list B := match find g (x_src x) with Some _ => [ev x] | None => [] end.
+Definition recs (g : G) : list xinter := records_of (idx g) f.
+Definition inr (g : G) (x : xinter) : bool := (gfirst g <=? x_src x) && (x_src x <=? glast g).
+Definition pin (g : G) (x : xinter) : bool := inr g x && match find g (x_src x) with Some _ => true | None => false end.
+Definition pout (g : G) (x : xinter) : bool := negb (inr g x).
+Definition HH (cells : list Z) (x : xinter) : list B := if zmem (x_src x) cells then [ev x] else [].
+
+Variable gs : list G.
+Hypothesis gs_ok : Forall (gok G idx gfirst glast gn) gs.
+Hypothesis gs_sorted : StronglySorted Z.lt (lev G idx gs).
+
+Lemma kk_prop : Forall (kprop G gfirst glast B kk) gs.
+Proof.
+  rewrite Forall_forall. intros g Hg x Hx. unfold kk. destruct (find g (x_src x)) as [k|] eqn:E; [|reflexivity].
+  exfalso. apply Hx. apply (gok_range G idx gfirst glast gn g).
+  - exact (g_ok G idx gfirst glast gn gs gs_ok g Hg).
+  - exact (g_sorted G idx gfirst glast gn gs gs_ok gs_sorted g Hg).
+  - apply (gfind1_In G idx gfirst glast gn g _ k); [exact (g_ok G idx gfirst glast gn gs gs_ok g Hg)| |exact E].
+    exact (g_sorted G idx gfirst glast gn gs gs_ok gs_sorted g Hg).
+Qed.
+
+Lemma Kall_HH x : Kall G B kk gs x = HH (lev G idx gs) x.
+Proof. unfold Kall, kk, HH. apply (K_char G idx gfirst glast gn); assumption. Qed.
+
+Lemma pin_HH g x : In g gs -> pin g x = true -> HH (lev G idx gs) x = [ev x].
+Proof.
+  intros Hg Hp. unfold pin in Hp. apply andb_true_iff in Hp. destruct Hp as [_ Hp].
+  destruct (find g (x_src x)) as [k|] eqn:E; [|discriminate].
+  unfold HH. destruct (zmem_In (x_src x) (lev G idx gs)) as [_ Hz]. rewrite Hz; [reflexivity|].
+  apply (lev_incl G idx gs g); [exact Hg|].
+  apply (gfind1_In G idx gfirst glast gn g _ k); [exact (g_ok G idx gfirst glast gn gs gs_ok g Hg)| |exact E].
+  exact (g_sorted G idx gfirst glast gn gs gs_ok gs_sorted g Hg).
+Qed.
+
+Lemma in_filter_eq g : In g gs -> forall l,
+  flat_map (HH (lev G idx gs)) (filter (fun a => negb (pout g a)) l) = flat_map (HH (lev G idx gs)) (filter (pin g) l).
+Proof.
+  intros Hg. induction l as [|a l IH]; [reflexivity|]. cbn [filter].
+  assert (Ho : pout g a = negb (inr g a)) by reflexivity.
+  assert (Hi : pin g a = inr g a && match find g (x_src a) with Some _ => true | None => false end) by reflexivity.
+  rewrite Ho, Hi. clear Ho Hi.
+  destruct (inr g a) eqn:Er; cbn [negb andb]; [|exact IH].
+  destruct (find g (x_src a)) as [k|] eqn:E.
+  - cbn [flat_map]. f_equal. exact IH.
+  - cbn [flat_map]. rewrite IH.
+    assert (Hn : HH (lev G idx gs) a = []).
+    { unfold HH. destruct (zmem (x_src a) (lev G idx gs)) eqn:Ez; [|reflexivity]. exfalso.
+      apply zmem_In in Ez. unfold inr in Er.
+      apply (own_range G idx gfirst glast gn gs gs_ok gs_sorted g) in Ez; [|exact Hg|lia].
+      apply (gfind1_none G idx gfirst glast gn g (x_src a)) in E; [contradiction| |].
+      - exact (g_ok G idx gfirst glast gn gs gs_ok g Hg).
+      - exact (g_sorted G idx gfirst glast gn gs gs_ok gs_sorted g Hg). }
+    rewrite Hn. reflexivity.
+Qed.
+
+Definition group_out (g : G) : list B :=
+  batches G B kk (map_indexes_and_blocks gfirst glast (filter (pout g) (recs g)) gs)
+  ++ flat_map (fun x => [ev x]) (filter (pin g) (recs g)).
+
+Lemma group_perm g : In g gs -> Permutation (group_out g) (flat_map (HH (lev G idx gs)) (recs g)).
+Proof.
+  intros Hg. unfold group_out.
+  eapply Permutation_trans.
+  { apply Permutation_app; [|apply Permutation_refl].
+    apply (mib_flat G gfirst glast B kk); [exact (gs_rs G idx gfirst glast gn gs gs_ok gs_sorted)|exact kk_prop]. }
+  rewrite (flat_map_ext _ _ Kall_HH).
+  rewrite <- (fm_ext_in (HH (lev G idx gs)) (fun x => [ev x]) (filter (pin g) (recs g))).
+  2:{ intros x Hx. apply filter_In in Hx. apply (pin_HH g x Hg). apply Hx. }
+  apply Permutation_sym.
+  eapply Permutation_trans; [apply (perm_fm_split _ (pout g))|].
+  apply Permutation_app_head. rewrite (in_filter_eq g Hg). apply Permutation_refl.
+Qed.
+
+Theorem level_perm :
+  Permutation (flat_map group_out gs)
+    (flat_map (fun t => flat_map (fun sc => if zmem (fst sc) (lev G idx gs) then [e' t (fst sc) (snd sc)] else []) (f t))
+              (lev G idx gs)).
+Proof.
+  eapply Permutation_trans; [apply perm_fm_pointwise; exact group_perm|].
+  match goal with |- Permutation ?a ?b => replace b with a; [apply Permutation_refl|] end.
+  unfold lev at 3. rewrite fm_fm. apply flat_map_ext. intros g.
+  exact (records_flat (fun t s c => if zmem s (lev G idx gs) then [e' t s c] else []) (idx g) f).
+Qed.
+
+(* facts about the batches handed to the groups *)
+Lemma batch_facts g gv : In g gs -> In gv (map_indexes_and_blocks gfirst glast (filter (pout g) (recs g)) gs) ->
+  In (fst gv) gs /\ incl (snd gv) (recs g)
+  /\ forall t, (length (filter (fun x => (x_tgt x =? t)%Z) (snd gv)) <= length (f t))%nat.
+Proof.
+  intros Hg Hin. apply mib_batches in Hin. destruct Hin as (H1 & H2 & H3).
+  split; [exact H1|]. split.
+  - intros x Hx. apply H2 in Hx. apply filter_In in Hx. apply Hx.
+  - intros t. eapply Nat.le_trans; [apply H3|].
+    eapply Nat.le_trans; [|apply (records_count (idx g) f t)].
+    + apply filter_filter_len.
+    + apply ss_lt_NoDup. exact (g_sorted G idx gfirst glast gn gs gs_ok gs_sorted g Hg).
+Qed.
+End LevelPerm.
